@@ -161,6 +161,11 @@ def check_cases(cases: list[dict], rep: Report, known: dict) -> None:
         if ok:
             rep.count("semantic", "preserved")
             continue
+        if a_out[0] == "err" and q_out[0] == "ok":
+            # exact arithmetic evaluates the output, double arithmetic does not: an intermediate of
+            # the output under- or overflowed (e.g. x*x for x = 1e-200) - outside every property
+            rep.skip("range")
+            continue
         if a_out[0] == "err" and a_out[1] in ("unsupported",):
             rep.skip("model-unsupported")
             continue
